@@ -16,7 +16,9 @@ const (
 	fCtl   = "(*controller.Controller)."
 	fRepl  = "(*controller.replicator)."
 	fMW    = "(*controller.MultiWriterAt)."
-	rwCnt  = `count{+"RW" -$0.quorumReplicas[*].Mode ==0 ; +"RW" -$0.replicas[*].Mode ==0}`
+	rwCntQ = `count{+"RW" -$0.quorumReplicas[*].Mode ==0}`
+	rwCntR = `count{+"RW" -$0.replicas[*].Mode ==0}`
+	rwCnt  = "(+" + rwCntQ + " +" + rwCntR + ")"
 	rwCntD = `count{+"RW" -$0.replicas[*].Mode ==0}`
 )
 
@@ -378,7 +380,6 @@ func ruleDetach(rule string) ruleFn {
 			ev := errOfCall(call)
 			_, nonNil := nilTestEdges(fn, ev)
 			isRet := func(in ssa.Instruction) bool { _, ok := in.(*ssa.Return); return ok }
-			errs := "as<*controller.BackendError>(" + cs + "#1).Errors"
 			// (1) handleErrorNoLock(err)
 			wantH := fCtl + "handleErrorNoLock($0," + cs + "#1)"
 			ws := afterEdge(fn, nonNil, func(in ssa.Instruction) bool { return callRender(R, in) == wantH }, nil, isRet)
@@ -388,30 +389,85 @@ func ruleDetach(rule string) ruleFn {
 			} else {
 				c.Bad(rule, key, c.P.InstrPos(call), "a return is reachable from the backend-error edge without calling handleErrorNoLock on that error (failed replicas not marked ERR)", c.witness(ws[0]))
 			}
-			// (2) removal loop
-			wantR := fCtl + "RemoveReplicaNoLock($0,key(" + errs + "))"
-			var rm []ssa.Instruction
-			for _, in := range CallsTo(fn, fCtl+"RemoveReplicaNoLock") {
-				if callRender(R, in) == wantR {
-					rm = append(rm, in)
-				}
-			}
+			// (2) removal loop (in the method itself, or in a helper that receives the error)
 			key = FnName(fn) + " | err branch | RemoveReplicaNoLock loop"
-			if len(rm) == 0 {
-				c.Bad(rule, key, c.P.InstrPos(call), "no call "+wantR+" (failed replicas are not detached under the I/O's lock)", nil)
-			} else {
-				// the loop must be traversed: every return after the error edge passes the loop-exit edge or a nothing-to-detach edge
-				done := atomEdges(fn, R, "!more("+errs+")", "!is<*controller.BackendError>("+cs+"#1)", "-len("+errs+") >=0")
+			errV := cs + "#1"
+			rm, loopOK, why := detachLoop(fn, R, "$0", errV)
+			if len(rm) > 0 {
+				done := atomEdges(fn, R, detachDoneAtoms(errV)...)
 				ws = afterEdge(fn, nonNil, nil, done, isRet)
-				// body: call sits directly on the loop's more-edge
-				body := rm[0].Block()
-				direct := len(body.Preds) == 1 && atomEdges(fn, R, "more("+errs+")")(body.Preds[0], succIndex(body.Preds[0], body))
-				if len(ws) == 0 && direct {
+				if len(ws) == 0 && loopOK {
 					c.OK(rule, key, c.P.InstrPos(rm[0]), "every return after a backend error has run the detach loop over bErr.Errors", true)
-				} else if !direct {
-					c.Bad(rule, key, c.P.InstrPos(rm[0]), "RemoveReplicaNoLock is not executed unconditionally for every key of bErr.Errors", nil)
+				} else if !loopOK {
+					c.Bad(rule, key, c.P.InstrPos(rm[0]), why, nil)
 				} else {
 					c.Bad(rule, key, c.P.InstrPos(rm[0]), "a return is reachable from the backend-error edge without running the detach loop", c.witness(ws[0]))
+				}
+			} else {
+				// helper: a controller function called with (c, err) that runs the loop on every path
+				var via ssa.Instruction
+				var hwhy string
+				eachInstr(fn, func(in ssa.Instruction) {
+					cl, ok := in.(*ssa.Call)
+					if !ok || via != nil {
+						return
+					}
+					h := cl.Call.StaticCallee()
+					if h == nil || h.Blocks == nil || h == fn || !isJivaFn(h) || FnName(h) == fCtl+"handleErrorNoLock" {
+						return
+					}
+					args := callArgs(R, cl)
+					ei, ci := -1, -1
+					for i, a := range args {
+						if a == errV {
+							ei = i
+						}
+						if a == "$0" {
+							ci = i
+						}
+					}
+					if ei < 0 || ci < 0 {
+						return
+					}
+					HR := NewRenderer(h)
+					hv := fmt.Sprintf("$%d", ei)
+					hrm, hok, w := detachLoop(h, HR, fmt.Sprintf("$%d", ci), hv)
+					if len(hrm) == 0 {
+						return
+					}
+					if !hok {
+						hwhy = FnName(h) + ": " + w
+						return
+					}
+					isRetH := func(in ssa.Instruction) bool { _, ok := in.(*ssa.Return); return ok }
+					if len(Query{Fn: h, IsSite: isRetH, GenEdge: atomEdges(h, HR, detachDoneAtoms(hv)...)}.Run()) > 0 {
+						hwhy = FnName(h) + " can return without having traversed the detach loop"
+						return
+					}
+					locks := false
+					eachInstr(h, func(x ssa.Instruction) {
+						if isUnlockCall(x) || isLockCall(x) {
+							locks = true
+						}
+					})
+					if locks {
+						hwhy = FnName(h) + " releases or takes a lock"
+						return
+					}
+					via = in
+				})
+				if via == nil {
+					if hwhy == "" {
+						hwhy = "no call " + fCtl + "RemoveReplicaNoLock($0,key(as<*controller.BackendError>(" + errV + ").Errors)), directly or in a helper taking (c, err) (failed replicas are not detached under the I/O's lock)"
+					}
+					c.Bad(rule, key, c.P.InstrPos(call), hwhy, nil)
+				} else {
+					ws = afterEdge(fn, nonNil, func(in ssa.Instruction) bool { return in == via }, nil, isRet)
+					if len(ws) == 0 {
+						c.OK(rule, key, c.P.InstrPos(via), "every return after a backend error has called "+CalleeName(via)+", which runs the detach loop over bErr.Errors on every path", true)
+					} else {
+						c.Bad(rule, key, c.P.InstrPos(via), "a return is reachable from the backend-error edge without running the detach loop", c.witness(ws[0]))
+					}
 				}
 			}
 			// (3) no lock release between backend call and return
@@ -425,6 +481,33 @@ func ruleDetach(rule string) ruleFn {
 		}
 		c.Floor(rule, 12)
 	}
+}
+
+func detachDoneAtoms(errV string) []string {
+	errs := "as<*controller.BackendError>(" + errV + ").Errors"
+	return []string{"!more(" + errs + ")", "!is<*controller.BackendError>(" + errV + ")", "-len(" + errs + ") >=0"}
+}
+
+// detachLoop finds `for address := range err.(*BackendError).Errors { recv.RemoveReplicaNoLock(address) }`
+// in fn (recv and errV rendered in fn's terms); ok when the call sits directly on the loop's
+// more-edge (executed for every key).
+func detachLoop(fn *ssa.Function, R *Renderer, recv, errV string) (rm []ssa.Instruction, ok bool, why string) {
+	errs := "as<*controller.BackendError>(" + errV + ").Errors"
+	wantR := fCtl + "RemoveReplicaNoLock(" + recv + ",key(" + errs + "))"
+	for _, in := range CallsTo(fn, fCtl+"RemoveReplicaNoLock") {
+		if callRender(R, in) == wantR {
+			rm = append(rm, in)
+		}
+	}
+	if len(rm) == 0 {
+		return nil, false, "no call " + wantR
+	}
+	body := rm[0].Block()
+	direct := len(body.Preds) == 1 && atomEdges(fn, R, "more("+errs+")")(body.Preds[0], succIndex(body.Preds[0], body))
+	if !direct {
+		return rm, false, "RemoveReplicaNoLock is not executed unconditionally for every key of bErr.Errors"
+	}
+	return rm, true, ""
 }
 
 func succIndex(b, s *ssa.BasicBlock) int {
